@@ -183,7 +183,14 @@ def check_pad(rec, n, per, gb, gf, cb, cf, w, layout, seed, g=None, second=True)
             bw = {"X": wx, "Y": wy} if (wx[0] + wy[1]) % 2 == 0 else {"X": list(wx), "Y": list(wy)}
             if (wx[1] + wy[0] + len(layout)) % 2:
                 bw = {"Y": bw["Y"], "X": bw["X"]}
-            r = pad(da, g, bw, boundary=_copy(cb), fill_value=decode(_copy(cf)))
+            if which == 0 and (wx[0] + wy[0] + len(layout)) % 3 == 0:
+                # the array handed over as a vector component {axis: array} (with its partner): on a grid without face
+                # connections that is the same request
+                r = pad({"X": da}, g, bw, boundary=_copy(cb), fill_value=decode(_copy(cf)), other_component={"Y": da * 0.5 - 1})
+                if isinstance(r, dict):
+                    r = r["X"]
+            else:
+                r = pad(da, g, bw, boundary=_copy(cb), fill_value=decode(_copy(cf)))
         except Exception as e:
             rec.case((n, per, gb, gf, cb, cf, w, layout), nz)
             rec.violation("pad", "raise:" + exc_sig(e), case, "padded array", f"{type(e).__name__}: {e}"[:200])
